@@ -1324,10 +1324,30 @@ def compare_datasets(ck, a, b, case, twin_what, cond):
             amp_name = name.replace("_phase", "_associated_spectra")
             amp = np.asarray(a[amp_name].values, dtype=np.float64) if amp_name in a else np.ones_like(x)
             dphi = np.where(amp > 1e-6 * max(1.0, float(np.max(amp))), x - y, 0.0)
-            # np.unwrap of a phase series: a 2*pi jump at the start shifts the whole series
             ok = np.all(np.abs(np.sin(dphi / 2)) < 1e-5)
             if not ok:
                 out.append(("twin-value:" + _generic(name), f"{name} differs by label (max {float(np.max(np.abs(np.sin(dphi / 2)))):.3g} in sin(dphi/2))"))
+                continue
+            # np.unwrap runs along the series of ONE label: the only legitimate difference between two fits that agree to
+            # rounding is a shift of a whole series by one multiple of 2*pi, and only when its first phase sits on the
+            # branch cut of arctan2 (+-pi); anything else (a shift that varies along the series, or a shifted series that
+            # starts away from the cut) means the value under a label depends on the other labels / the declaration order
+            lab_axes = [i for i, d in enumerate(va.dims) if is_label_dim(a, d)]
+            if x.ndim == 2 and len(lab_axes) == 1:
+                X, Y, A = (np.moveaxis(z, lab_axes[0], 0) for z in (x, y, np.broadcast_to(amp, x.shape)))
+                for row in range(X.shape[0]):
+                    live = A[row] > 1e-6 * max(1.0, float(np.max(amp)))
+                    if not live.any():
+                        continue
+                    k = np.round((X[row] - Y[row])[live] / (2 * np.pi))
+                    if np.all(k == 0):
+                        continue
+                    first = int(np.argmax(live))
+                    on_cut = min(abs(abs(X[row][first]) - np.pi), abs(abs(Y[row][first]) - np.pi)) < 1e-4
+                    if len(set(k.tolist())) > 1 or not (on_cut and bool(live[0])):
+                        out.append(("twin-value:" + _generic(name), f"{name}: the phase series of label no. {row} is shifted by "
+                                    f"{sorted(set(k.tolist()))} x 2*pi between the two declaration orders"))
+                        break
             continue
         tol = (1e-7 * max(cond, 1.0) if fit else 1e-8)
         if not close(x, y, tol):
